@@ -53,6 +53,16 @@ func runC12(args []string) error {
 		c.W, c.H = 1+r.Intn(12), 1+r.Intn(12)
 		one(c)
 	}
+	// 16 bits, highest qualities, deep decompositions: the smallest steps the quality mapping produces
+	for q := 94; q <= 100; q++ {
+		for _, lv := range []int{3, 4, 5, 6} {
+			c := mk(q + lv)
+			c.P, c.Quality, c.Levels = 16, q, lv
+			c.W, c.H = 8+r.Intn(f.maxdim), 8+r.Intn(f.maxdim)
+			c.Cls = []string{"sparse", "smooth", "ramp", "sparse"}[(q+lv)%4]
+			one(c)
+		}
+	}
 	if f.big {
 		for i := 0; i < 30; i++ {
 			c := mk(i)
